@@ -769,8 +769,13 @@ def _campaign(case):
             stats = json.load(f)
     except OSError:
         raise RuntimeError("atheris campaign {} left no statistics: {}".format(idx, tail))
-    if stats.get('execs', 0) < runs * 0.95:
-        raise RuntimeError("atheris campaign {} executed {} of {} runs: {}".format(idx, stats.get('execs'), runs, tail))
+    import re
+    mm = re.search(r'stat::number_of_executed_units:\s*(\d+)', tail)
+    executed = int(mm.group(1)) if mm else 0
+    if executed < runs or stats.get('execs', 0) < runs - 2000:
+        raise RuntimeError("atheris campaign {} executed {} (target counted {}) of {} runs: {}".format(
+            idx, executed, stats.get('execs'), runs, tail))
+    stats['execs'] = executed
     if not stats.get('accepted'):
         raise RuntimeError("atheris campaign {} never produced a well-formed document (stats {})".format(idx, stats))
     ncorp = len(os.listdir(corpus))
